@@ -73,6 +73,12 @@ def shl (a : UInt64) (n : Nat) : UInt64 := if n < 64 then a <<< UInt64.ofNat n e
 /-- `a >> n` on `uint64`: 0 once `n ≥ 64` -/
 def shr (a : UInt64) (n : Nat) : UInt64 := if n < 64 then a >>> UInt64.ofNat n else 0
 
+/-- `slices.Delete(s, i, j)`: the slice without the elements `[i, j)` (Go panics when the range is invalid) -/
+def sliceDelete {α : Type} (s : List α) (i j : Nat) : List α := s.take i ++ s.drop j
+
+/-- `copy(dst, src)`: the first `min(len(dst), len(src))` elements of `dst` are overwritten -/
+def copySlice {α : Type} (dst src : List α) : List α := src.take dst.length ++ dst.drop src.length
+
 /-- `fmt.Sprintf(format, …)`: only the format is kept (the rendered arguments never influence control flow in
     the translated functions; the string is used to identify the error value that is built from it) -/
 def sprintf (format : String) : String := format
